@@ -1,5 +1,24 @@
 package main
 
+// Replay of solver models against the real code: an in-package Go test is
+// generated from the model and injected with `go test -overlay` (nothing is
+// written into the repository).  Supported inputs: scalar parameters and
+// slices of bytes / integers of plain (non-method) functions; for other
+// shapes no input is synthesised.
+
+import (
+	"bytes"
+	"encoding/json"
+	"fmt"
+	"go/types"
+	"math/big"
+	"os"
+	"os/exec"
+	"path/filepath"
+	"strings"
+	"time"
+)
+
 type ReplayResult struct {
 	Confirmed bool   `json:"confirmed"`
 	Summary   string `json:"summary"`
@@ -7,6 +26,288 @@ type ReplayResult struct {
 	Output    string `json:"output,omitempty"`
 }
 
+func parseModelInt(s string) (*big.Int, bool) {
+	s = strings.TrimSpace(s)
+	if strings.HasPrefix(s, "#x") {
+		v, ok := new(big.Int).SetString(s[2:], 16)
+		return v, ok
+	}
+	if strings.HasPrefix(s, "#b") {
+		v, ok := new(big.Int).SetString(s[2:], 2)
+		return v, ok
+	}
+	if strings.HasPrefix(s, "(- ") && strings.HasSuffix(s, ")") {
+		v, ok := new(big.Int).SetString(strings.TrimSpace(s[3:len(s)-1]), 10)
+		if ok {
+			v.Neg(v)
+		}
+		return v, ok
+	}
+	if strings.HasPrefix(s, "(_ bv") {
+		f := strings.Fields(s[5:])
+		v, ok := new(big.Int).SetString(f[0], 10)
+		return v, ok
+	}
+	v, ok := new(big.Int).SetString(s, 10)
+	return v, ok
+}
+
+// goIntLiteral renders a model value as a Go expression of the given integer type.
+func goIntLiteral(v *big.Int, t types.Type) string {
+	w, signed, _ := intInfo(t)
+	m := new(big.Int).Lsh(big.NewInt(1), uint(w))
+	x := new(big.Int).Mod(v, m)
+	name := types.TypeString(t, func(p *types.Package) string { return p.Name() })
+	if signed {
+		half := new(big.Int).Lsh(big.NewInt(1), uint(w-1))
+		if x.Cmp(half) >= 0 {
+			x.Sub(x, m)
+		}
+		if x.Sign() < 0 && x.Cmp(new(big.Int).Neg(half)) == 0 {
+			// most negative value: -MaxInt-1
+			mx := new(big.Int).Sub(half, big.NewInt(1))
+			return fmt.Sprintf("%s(-%s - 1)", name, mx.String())
+		}
+	}
+	return fmt.Sprintf("%s(%s)", name, x.String())
+}
+
 func tryReplay(P *Program, fr *FuncResult, s *SiteResult, verifDir string) *ReplayResult {
+	r := tryReplayModel(P, fr, s, verifDir)
+	if r != nil && r.Confirmed {
+		return r
+	}
+	if fr.Ex == nil || s.FailStat != "sat" {
+		return r
+	}
+	// the model comes from a modular proof attempt: callee results are only constrained by
+	// their contracts.  Search for an end-to-end input: callees inlined, loops unrolled (bounded search,
+	// used only to find a replayable counterexample, never to prove anything).
+	if m := searchConcreteModel(P, fr, s); m != nil {
+		s2 := *s
+		s2.Model = m
+		if os.Getenv("GOCV_DEBUG") != "" {
+			fmt.Fprintf(os.Stderr, "CEX model: %s\n", modelString(m))
+		}
+		if r2 := tryReplayModel(P, fr, &s2, verifDir); r2 != nil {
+			if os.Getenv("GOCV_DEBUG") != "" {
+				fmt.Fprintf(os.Stderr, "CEX replay: %v %s\n%s\n", r2.Confirmed, r2.Summary, r2.Test)
+			}
+			r2.Summary = "input found by bounded search with callees inlined; " + r2.Summary
+			if r2.Confirmed || r == nil {
+				s.Model = m
+				return r2
+			}
+		}
+	}
+	return r
+}
+
+var cexMode = false
+
+const cexUnroll = 12
+
+func searchConcreteModel(P *Program, fr *FuncResult, s *SiteResult) (model map[string]string) {
+	defer func() {
+		if r := recover(); r != nil {
+			if os.Getenv("GOCV_DEBUG") != "" {
+				fmt.Fprintf(os.Stderr, "CEX search aborted: %v\n", r)
+			}
+			model = nil
+		}
+	}()
+	cexMode = true
+	defer func() { cexMode = false }()
+	// bit-precise search: everything in bit-vector mode
+	spec := *fr.Ex.spec
+	spec.Mode = ModeBV
+	ex, err := VerifyFunc(P, fr.Ex.fn, &spec, fr.Ex.prop)
+	if os.Getenv("GOCV_DEBUG") != "" {
+		fmt.Fprintf(os.Stderr, "CEX search: err=%v obligs=%d\n", err, func() int { if ex == nil { return -1 }; return len(ex.obligs) }())
+	}
+	if err != nil || ex == nil {
+		return nil
+	}
+	n := 0
+	for _, o := range ex.obligs {
+		if o.Site != s.Site || o.Goal.IsTrue() {
+			continue
+		}
+		n++
+		if n > 1500 {
+			break
+		}
+		asserts := append([]*Term{}, ex.axioms...)
+		asserts = append(asserts, ex.nlAxioms...)
+		asserts = append(asserts, o.Hyps...)
+		asserts = append(asserts, Not(o.Goal))
+		// prefer small inputs: slices of at most 64 elements
+		for _, v := range ex.entryVals {
+			if v.Sl != nil {
+				asserts = append(asserts, ex.sle(v.Sl.Cap, ex.intConst(64)))
+			}
+		}
+		r := solveWith(backends[:1], ex.env.d, asserts, ex.inputs, 5, false, o.Site+" [cex search]")
+		if os.Getenv("GOCV_DEBUG") != "" {
+			fmt.Fprintf(os.Stderr, "CEX query %s @%s: %s\n", o.Site, o.Path, r.Status)
+		}
+		if r.Status == "sat" && len(r.Model) > 0 {
+			m := map[string]string{}
+			for k, v := range r.Model {
+				if nn, ok := ex.inputNames[k]; ok {
+					m[nn] = v
+				} else {
+					m[k] = v
+				}
+			}
+			return m
+		}
+	}
 	return nil
+}
+
+func tryReplayModel(P *Program, fr *FuncResult, s *SiteResult, verifDir string) *ReplayResult {
+	if s.FailStat != "sat" || len(s.Model) == 0 || fr.Ex == nil {
+		return nil
+	}
+	fn := fr.Ex.fn
+	if fn.Signature.Recv() != nil || fn.TypeParams().Len() > 0 || fn.Pkg == nil {
+		return &ReplayResult{Summary: "no input synthesised (method or generic function: receiver/heap shapes are not reconstructed)"}
+	}
+	names := fr.Ex.paramNames(fn, fr.Ex.spec)
+	var setup []string
+	var callArgs []string
+	for i, p := range fn.Params {
+		name := names[i]
+		v := fmt.Sprintf("a%d", i)
+		t := p.Type()
+		switch tt := t.Underlying().(type) {
+		case *types.Basic:
+			switch {
+			case tt.Info()&types.IsInteger != 0:
+				mv, ok := parseModelInt(s.Model[symSafe("in "+name)])
+				if !ok {
+					return &ReplayResult{Summary: "no input synthesised (model lacks a value for " + name + ")"}
+				}
+				setup = append(setup, fmt.Sprintf("%s := %s", v, goIntLiteral(mv, t)))
+			case tt.Info()&types.IsBoolean != 0:
+				setup = append(setup, fmt.Sprintf("%s := %v", v, strings.TrimSpace(s.Model[symSafe("in "+name)]) == "true"))
+			default:
+				return &ReplayResult{Summary: "no input synthesised (parameter " + name + " of type " + t.String() + ")"}
+			}
+		case *types.Slice:
+			if _, _, ok := intInfo(tt.Elem()); !ok {
+				return &ReplayResult{Summary: "no input synthesised (slice of " + tt.Elem().String() + ")"}
+			}
+			ln, ok1 := parseModelInt(s.Model[symSafe("in "+name+".len")])
+			cp, ok2 := parseModelInt(s.Model[symSafe("in "+name+".cap")])
+			arr, ok3 := parseModelInt(s.Model[symSafe("in "+name+".arr")])
+			if !ok1 || !ok2 || !ok3 {
+				return &ReplayResult{Summary: "no input synthesised (model lacks the header of " + name + ")"}
+			}
+			if arr.Sign() == 0 {
+				setup = append(setup, fmt.Sprintf("var %s %s", v, types.TypeString(t, nil)))
+				break
+			}
+			if ln.Cmp(big.NewInt(4096)) > 0 {
+				return &ReplayResult{Summary: fmt.Sprintf("not replayed: the model needs a slice of length %s", ln)}
+			}
+			if cp.Cmp(big.NewInt(8192)) > 0 {
+				cp = new(big.Int).Set(ln)
+			}
+			var elems []string
+			for k := int64(0); k < ln.Int64() && k < 64; k++ {
+				key := fmt.Sprintf("elem %s %d", name, k)
+				ev, ok := parseModelInt(s.Model[key])
+				if !ok {
+					ev = big.NewInt(0)
+				}
+				elems = append(elems, goIntLiteral(ev, tt.Elem()))
+			}
+			ts := types.TypeString(t, nil)
+			setup = append(setup, fmt.Sprintf("%s := make(%s, %d, %d)", v, ts, ln.Int64(), cp.Int64()))
+			for k, e := range elems {
+				setup = append(setup, fmt.Sprintf("%s[%d] = %s", v, k, e))
+			}
+		default:
+			return &ReplayResult{Summary: "no input synthesised (parameter " + name + " of type " + t.String() + ")"}
+		}
+		callArgs = append(callArgs, v)
+	}
+	pkgName := fn.Pkg.Pkg.Name()
+	nres := fn.Signature.Results().Len()
+	var lhs []string
+	for i := 0; i < nres; i++ {
+		lhs = append(lhs, fmt.Sprintf("r%d", i))
+	}
+	call := fmt.Sprintf("%s(%s)", fn.Name(), strings.Join(callArgs, ", "))
+	var body strings.Builder
+	fmt.Fprintf(&body, "package %s\n\nimport (\n\t\"fmt\"\n\t\"testing\"\n)\n\n", pkgName)
+	fmt.Fprintf(&body, "// generated by gocv from the model of obligation %s\nfunc TestGocvReplay(t *testing.T) {\n", s.Site)
+	body.WriteString("\tdefer func() {\n\t\tif r := recover(); r != nil {\n\t\t\tfmt.Printf(\"GOCV-REPLAY PANIC: %v\\n\", r)\n\t\t}\n\t}()\n")
+	for _, l := range setup {
+		body.WriteString("\t" + l + "\n")
+	}
+	if nres > 0 {
+		fmt.Fprintf(&body, "\t%s := %s\n", strings.Join(lhs, ", "), call)
+		fmt.Fprintf(&body, "\tfmt.Printf(\"GOCV-REPLAY RETURNED: %s\\n\", %s)\n", strings.Repeat("%v ", nres), strings.Join(lhs, ", "))
+	} else {
+		fmt.Fprintf(&body, "\t%s\n\tfmt.Println(\"GOCV-REPLAY RETURNED\")\n", call)
+	}
+	body.WriteString("}\n")
+	// run with an overlay
+	dir, err := os.MkdirTemp(filepath.Join(verifDir, ".work"), "replay-")
+	if err != nil {
+		return &ReplayResult{Summary: "replay not run: " + err.Error()}
+	}
+	defer os.RemoveAll(dir)
+	testFile := filepath.Join(dir, "zz_gocv_replay_test.go")
+	os.WriteFile(testFile, []byte(body.String()), 0o644)
+	pkgDir := filepath.Join(P.Repo, strings.TrimPrefix(strings.TrimPrefix(fn.Pkg.Pkg.Path(), modulePath), "/"))
+	ov := map[string]map[string]string{"Replace": {filepath.Join(pkgDir, "zz_gocv_replay_test.go"): testFile}}
+	ovb, _ := json.Marshal(ov)
+	ovFile := filepath.Join(dir, "overlay.json")
+	os.WriteFile(ovFile, ovb, 0o644)
+	cmd := exec.Command("go", "test", "-overlay", ovFile, "-vet=off", "-count=1", "-timeout", "60s", "-run", "^TestGocvReplay$", "-v", ".")
+	cmd.Dir = pkgDir
+	env := []string{}
+	for _, e := range os.Environ() {
+		if !strings.HasPrefix(e, "GOFLAGS=") {
+			env = append(env, e)
+		}
+	}
+	cmd.Env = append(env, "GOFLAGS=", "GOPROXY=off", "GOSUMDB=off", "GOTOOLCHAIN=local")
+	var out bytes.Buffer
+	cmd.Stdout = &out
+	cmd.Stderr = &out
+	done := make(chan error, 1)
+	go func() { done <- cmd.Run() }()
+	select {
+	case <-done:
+	case <-time.After(120 * time.Second):
+		if cmd.Process != nil {
+			cmd.Process.Kill()
+		}
+	}
+	res := &ReplayResult{Test: body.String(), Output: truncate(out.String(), 3000)}
+	var line string
+	for _, ln := range strings.Split(out.String(), "\n") {
+		if strings.HasPrefix(ln, "GOCV-REPLAY") {
+			line = ln
+		}
+	}
+	expectPanic := s.Kind == "bounds" || s.Kind == "nil" || s.Kind == "div" || s.Kind == "panic" || s.Kind == "shift"
+	switch {
+	case strings.HasPrefix(line, "GOCV-REPLAY PANIC"):
+		res.Confirmed = expectPanic || s.Kind == "post" || s.Kind == "panic-iff"
+		res.Summary = "real code on the model input: " + strings.TrimPrefix(line, "GOCV-REPLAY ")
+		if res.Confirmed {
+			res.Summary += "  CONFIRMED"
+		}
+	case strings.HasPrefix(line, "GOCV-REPLAY RETURNED"):
+		res.Summary = "real code on the model input: " + strings.TrimPrefix(line, "GOCV-REPLAY ") + " (the failed clause is not evaluated by the replay: see the obligation)"
+	default:
+		res.Summary = "replay did not run to completion"
+	}
+	return res
 }
